@@ -1,0 +1,45 @@
+//go:build verif
+
+// Verification hook for property C02 (add-only, compiled only with -tags verif): lets the /verif harness (cmd/c02dump)
+// ask the REAL taint visitor for the dropped/kept verdict of a summary edge (the validator loop at the top of addNext)
+// and for the real isValidatorCondition / isSanitizer verdicts.
+
+package taint
+
+import (
+	"github.com/awslabs/ar-go-tools/analysis/config"
+	"github.com/awslabs/ar-go-tools/analysis/dataflow"
+	"golang.org/x/tools/go/ssa"
+)
+
+// VerifC02IsValidatorCondition is isValidatorCondition.
+func VerifC02IsValidatorCondition(ts *config.TaintSpec, v ssa.Value, isPositive bool) bool {
+	return isValidatorCondition(ts, v, isPositive)
+}
+
+// VerifC02IsSanitizer is isSanitizer.
+func VerifC02IsSanitizer(s *dataflow.AnalyzerState, ts *config.TaintSpec, n dataflow.GraphNode) bool {
+	return isSanitizer(s, ts, n)
+}
+
+// VerifC02AddNextKeeps runs the real (*Visitor).addNext of a fresh visitor for the problem ts on the single edge
+// src -> dst labelled edgeInfo, from a root-like visitor node (access path "", default tracing, empty traces), and
+// reports whether the destination was enqueued.
+func VerifC02AddNextKeeps(s *dataflow.AnalyzerState, ts *config.TaintSpec, src dataflow.GraphNode,
+	dst dataflow.GraphNode, edgeInfo dataflow.EdgeInfo) bool {
+	v := NewVisitor(ts)
+	cur := &dataflow.VisitorNode{
+		NodeWithTrace: dataflow.NodeWithTrace{Node: src},
+		AccessPaths:   []string{""},
+		Prev:          nil,
+		Depth:         0,
+		Status:        dataflow.VisitorNodeStatus{Kind: dataflow.DefaultTracing},
+	}
+	que := v.addNext(s, nil, cur, nil, dataflow.NodeWithTrace{Node: dst}, cur.Status, edgeInfo)
+	return len(que) > 0
+}
+
+// VerifC02Flows returns the flows accumulated by a visitor (the unexported field taints).
+func VerifC02Flows(v *Visitor) *Flows {
+	return v.taints
+}
